@@ -142,12 +142,89 @@ def task_bdd(t):
     return rep
 
 
+def task_wide(t):
+    """Small functions embedded in a WIDE manager: 12 declared variables, every 2- and 3-subset
+    of levels as support (gaps between support levels, large level numbers), every function."""
+    import itertools
+    _, nvars, k, si, ns, focus = t
+    rep = run.Report()
+    rec = sweep.Rec(rep)
+    allnames = ['v%d' % i for i in range(nvars)]
+    rot = env.SEED % nvars
+    decl = allnames[rot:] + allnames[:rot]          # declaration order
+    bdd = S.new_bdd({v: i for i, v in enumerate(decl)})
+    subsets = list(itertools.combinations(range(nvars), k))
+    mine = sweep.shard(subsets, ns)[si]
+    for lv in mine:
+        names = tuple(decl[i] for i in lv)
+        extra = decl[(lv[-1] + 1) % nvars] if (lv[-1] + 1) % nvars not in lv else decl[
+            next(i for i in range(nvars) if i not in lv)]
+        U = Universe(names + (extra,))
+        b = sweep.Builder(bdd, U)
+        fs = U.all_functions(names)
+        for fu in fs:
+            if focus is not None and [list(lv), fu] != list(focus):
+                continue
+            sup = U.support(fu)
+            if len(sup) < 1:
+                continue
+            case = dict(task=t[:-1] + ([list(lv), fu],), levels=list(lv), u=U.fmt(fu))
+            try:
+                u = b.verified(fu)
+                nm = U.count(fu) >> (U.m - len(sup))
+                rep.add('evaluations', 5)
+                if set(bdd.support(u)) != sup:
+                    rec('wide-support', 'support is wrong in a wide manager', case)
+                if bdd.count(u) != nm:
+                    rec('wide-count', 'count(u) is wrong in a wide manager', case)
+                for n_ in (len(sup), len(sup) + 2, nvars):
+                    if bdd.count(u, n_) != nm << (n_ - len(sup)):
+                        rec('wide-count-n', 'count(u, n) is wrong in a wide manager', case, n=n_)
+                if len(sup) > 1:
+                    try:
+                        c = bdd.count(u, len(sup) - 1)
+                        rec('wide-count-small', 'count accepted fewer variables than the support',
+                            case, got=c)
+                    except Exception:
+                        pass
+                for care in (None, set(names), sup | {extra}, {extra}):
+                    picks = list(bdd.pick_iter(u, care) if care is not None
+                                 else bdd.pick_iter(u))
+                    err = _check_picks(U, fu, care, picks, U.names)
+                    if err:
+                        rec('wide-pick_iter:' + err, err, dict(case, care=sorted(care)
+                                                               if care else None))
+                    if care is None and len(picks) != nm:
+                        rec('wide-pick-count', 'default pick_iter does not yield count(u) '
+                            'assignments', case)
+                for v in names + (extra, 'zz_undeclared'):
+                    if bool(bdd.is_essential(u, v)) != (v in sup):
+                        rec('wide-is_essential', 'is_essential is wrong in a wide manager', case)
+                if fu not in (0, U.full):
+                    rep.add('nontrivial', 5)
+            except Violation as e:
+                rec('wide-broken:' + e.what, e.what, case)
+            except Exception as e:  # noqa
+                rec('wide-exception:' + type(e).__name__, 'raised %r' % (e,), case)
+        bdd.collect_garbage()
+    if si == 0 and focus is None:
+        rep.sample(dict(kind='wide manager', declared=nvars, support_levels=list(mine[len(mine) // 2]),
+                        functions='all of the %d-variable functions' % k))
+    return rep
+
+
 def dispatch(t):
+    if t[0] == 'wide':
+        return task_wide(t)
     return task_bdd(t)
 
 
 def plan(tier):
     ts = []
+    for si in range(4):
+        ts.append(('wide', 12, 2, si, 4, None))
+    for si in range(16):
+        ts.append(('wide', 12 if tier == 'quick' else 14, 3, si, 16, None))
     if tier == 'quick':
         for oi in range(6):
             ts.append(('t', 3, oi, 'bdd', 0, 1, None))
@@ -178,6 +255,8 @@ def main(tier, t0):
               '24 thorough), regular and complemented references; support, is_essential for '
               'every declared and one undeclared name, count(u) and count(u, k) for k = '
               '0..|supp|+3, pick_iter for the default and EVERY care subset of the declared '
+              'names; WIDE managers: 12-14 declared variables, every 2- and 3-subset of levels as '
+              'support with every function over it (gaps and large level numbers); '
               'names, pick; dd.bdd and dd.autoref incl. Function methods; non-trivial = the '
               'function is not constant; distinct by construction'),
         assumptions=['truth-table model (mc/ref.py): models, support, cube masks'],
